@@ -150,6 +150,64 @@ theorem geom3_equivariant (sq : K → K) (M : Motion K) (hM : M.R.IsRot) (g : Gr
     geom3 sq (g.move M) = (geom3 sq g).move M ∧ geom3Err sq (g.move M) = geom3Err sq g :=
   ⟨geom3_move sq M hM g hF hC, geom3Err_move sq M hM g hC⟩
 
+/-! ### the hypotheses as decidable input conditions; neighbouring entry points (0-D grids, `cell_diameters`)
+
+`wf1`, `wf2 sq`, `wf3 sq` are Boolean functions of the grid; the driver evaluates them on every generated grid
+(answer field `hyp`) and the harness requires `true`, so the hypotheses of the equivariance theorems are
+checked inputs, not assumptions about the generator. -/
+
+/-- `_compute_geometry_0d` (point grids, the dispatcher's fourth branch): unit volumes, centres moved. -/
+theorem geom0_equivariant (M : Motion K) (g : Grid0 K) : geom0 (g.move M) = (geom0 g).move M := by
+  simp only [geom0, Grid0.move, Out.move, List.map_map, Function.comp_def, List.map_nil]
+
+theorem pairDists_act (sq : K → K) (M : Motion K) (hM : M.R.IsRot) (ps : List (V3 K)) :
+    pairDists sq (ps.map (act M)) = pairDists sq ps := by
+  induction ps with
+  | nil => rfl
+  | cons p l ih =>
+    simp only [List.map_cons, pairDists, ih, List.map_map, Function.comp_def, act_sub_act, nrm_rot sq M hM]
+
+/-- `Grid.cell_diameters`: the diameter of a cell (largest node distance) is invariant -/
+theorem cell_diameter_invariant (sq : K → K) (M : Motion K) (hM : M.R.IsRot) (ps : List (V3 K)) :
+    cellDiam sq (ps.map (act M)) = cellDiam sq ps := by
+  simp only [cellDiam, pairDists_act sq M hM]
+
+theorem isEmpty_false_ne_nil {α : Type} {l : List α} (h : (!l.isEmpty) = true) : l ≠ [] := by
+  cases l with
+  | nil => simp at h
+  | cons a l => simp
+
+/-- `geom1_equivariant` with its hypothesis as the decidable condition `wf1`. -/
+theorem geom1_equivariant_wf (sq : K → K) (M : Motion K) (hM : M.R.IsRot) (g : Grid1 K) (h : wf1 g = true) :
+    geom1 sq (g.move M) = (geom1 sq g).move M :=
+  geom1_move sq M hM g (isEmpty_false_ne_nil h)
+
+/-- `geom2_equivariant` under `wf2 sq g = true` (nodes exist, cells have faces, no zero volume). -/
+theorem geom2_equivariant_wf (sq : K → K) (M : Motion K) (hM : M.R.IsRot) (g : Grid2 K) (h : wf2 sq g = true) :
+    geom2 sq (g.move M) = (geom2 sq g).move M := by
+  simp only [wf2, Bool.and_eq_true, List.all_eq_true] at h
+  obtain ⟨⟨h1, h2⟩, h3⟩ := h
+  refine geom2_move sq M hM g (isEmpty_false_ne_nil h1) (fun c hc => isEmpty_false_ne_nil (h2 c hc)) ?_
+  intro v hv hv0
+  have := h3 v hv
+  simp [hv0] at this
+
+theorem faceOk_iff (sq : K → K) (ps : List (V3 K)) (h : faceOk sq ps = true) : ps ≠ [] ∧ faceArea3 sq ps ≠ 0 := by
+  simp only [faceOk, Bool.and_eq_true] at h
+  refine ⟨isEmpty_false_ne_nil h.1, fun h0 => ?_⟩
+  have := h.2
+  simp [h0] at this
+
+/-- `geom3_equivariant` under `wf3 sq g = true` (faces have nodes and area, cells have faces). -/
+theorem geom3_equivariant_wf (sq : K → K) (M : Motion K) (hM : M.R.IsRot) (g : Grid3 K) (h : wf3 sq g = true) :
+    geom3 sq (g.move M) = (geom3 sq g).move M ∧ geom3Err sq (g.move M) = geom3Err sq g := by
+  simp only [wf3, Bool.and_eq_true, List.all_eq_true] at h
+  obtain ⟨hF, hC⟩ := h
+  have hF' : ∀ ps ∈ g.faces, ps ≠ [] ∧ faceArea3 sq ps ≠ 0 := fun ps hp => faceOk_iff sq ps (hF ps hp)
+  have hC' : ∀ c ∈ g.cells, c ≠ [] ∧ ∀ f ∈ c, f.2 ≠ [] ∧ faceArea3 sq f.2 ≠ 0 := fun c hc =>
+    ⟨isEmpty_false_ne_nil (hC c hc).1, fun f hf => faceOk_iff sq f.2 ((hC c hc).2 f hf)⟩
+  exact ⟨geom3_move sq M hM g hF' hC', geom3Err_move sq M hM g hC'⟩
+
 /-! ### the real numbers: the true square root and arbitrary real rotation matrices
 
 Everything above is proved for every linearly ordered field `K` and every function `sq : K → K`. Taking
@@ -347,6 +405,14 @@ example : (geom3 id g3).cv = [1 / 6] ∧ (geom3 id g3).cc = [⟨1/4, 1/4, 1/4⟩
   decide +kernel
 example : geom3 id (g3.move M0) = (geom3 id g3).move M0 ∧ geom3Err id (g3.move M0) = geom3Err id g3 :=
   geom3_equivariant id M0 (by decide +kernel) g3 (by decide +kernel) (by decide +kernel)
+
+example : wf1 g1 = true ∧ wf2 sq0 (polyGrid lshape) = true ∧ wf2 sq0 gsq = true ∧ wf3 id g3 = true := by decide +kernel
+example : geom2 sq0 (gsq.move M1) = (geom2 sq0 gsq).move M1 :=
+  geom2_equivariant_wf sq0 M1 (by decide +kernel) gsq (by decide +kernel)
+example : geom0 (Grid0.move M0 ⟨[⟨1, 2, 3⟩], [⟨1, 2, 3⟩]⟩) = (geom0 (⟨[⟨1, 2, 3⟩], [⟨1, 2, 3⟩]⟩ : Grid0 Rat)).move M0 :=
+  geom0_equivariant M0 _
+example : cellDiam sq0 (lshape.map (act M0)) = cellDiam sq0 lshape ∧ cellDiam sq0 lshape = 8 :=
+  ⟨cell_diameter_invariant sq0 M0 (by decide +kernel) lshape, by decide +kernel⟩
 
 /-- an IRRATIONAL proper rotation (45° about the z-axis) satisfies the hypothesis of the real theorems -/
 noncomputable def M45 : Motion ℝ :=
